@@ -2,6 +2,7 @@
 import ast
 
 from vk import fabio, pools, rules, formulas, wiring
+from vk import replicate
 from vk.fabio import Num, N, D, Roles, Ratio, ArrV, ListAcc, Tup
 from vk.formulas import A
 from vk.model import norm, loc, AnalysisError, walk_no_nested, parents
@@ -176,9 +177,7 @@ def run(ctx):
                   f"result as the arrays", key="pair", semantic=len(zl) == 1)
     formulas.rule_level_range(ctx, f"{P}.LEVEL-RANGE", mn, obj="pck")
     ex = prog.func("amr_kitchen/utils.py", "expand_array3d", P)
-    r = [norm(n.value) for n in walk_no_nested(ex.node) if isinstance(n, ast.Return)]
-    ctx.check(r == ["np.repeat(np.repeat(np.repeat(arr, factor, axis=0), factor, axis=1), factor, axis=2)"], f"{P}.EXPAND",
-              ex.site, "expand_array3d repeats every axis by factor (values unchanged)", f"expand_array3d returns {r}")
+    replicate.rule(ctx, f"{P}.EXPAND", ex, 3, "expand_array3d repeats every axis by factor (values unchanged)")
     sv = [norm(c) for c in walk_no_nested(mn.node) if isinstance(c, ast.Call) and norm(c.func) == "np.save"]
     ctx.check(len(sv) == 2 and all(x.endswith(", data)") for x in sv), f"{P}.SAVE", mn.site, "the grid itself is saved",
               f"np.save calls: {sv}")
